@@ -524,7 +524,7 @@ def replay_hashseed(payload):
 # ------------------------------------------------------------------ batch / evidence
 TIERS = {
     "quick": {"runs": 6000, "chunk": 50, "wall_cap": 900, "hashseed_frac": 0.25, "hashseeds": [1, 4242]},
-    "thorough": {"runs": 40000, "chunk": 100, "wall_cap": 3400, "hashseed_frac": 0.5, "hashseeds": [1, 7, 4242]},
+    "thorough": {"runs": 100000, "chunk": 200, "wall_cap": 5400, "hashseed_frac": 0.5, "hashseeds": [1, 7, 4242]},
 }
 
 
@@ -540,7 +540,8 @@ def batch(task):
             agg["harness"].append({"run": run, "why": repr(e)[:200]})
             continue
         fold(agg, res, program)
-        if len(agg["violations"]) >= 12:
+        runner.note_violations(len(res["violations"]))
+        if len(agg["violations"]) >= 12 or runner.stop_requested():
             break
     if task.get("tier") == "thorough":
         for run in range(lo, min(hi, lo + 3)):
